@@ -20,13 +20,13 @@ ForestProg == Program(<<Enum("Tree", Mod, <<>>, <<Variant("Leaf", 0, <<>>), Vari
                         Struct("Long", Mod, <<>>, <<SField("bloom", P_Arr(u8, 300)), SField("w", P_Arr(u32, 257)), SField("s", P_Arr(bool, 33))>>)>>, <<>>)
 Extra == {[fam |-> "G12", prog |-> EmptyEnumProg, roots |-> <<A0("DeepNever"), A0("Big")>>],
           [fam |-> "G12", prog |-> ForestProg, roots |-> <<A0("Forest"), A0("Nest"), A0("Long")>>]}
-Cases == CASE FAMILY = "G1a_1" -> G1a_1(0) [] FAMILY = "G1c" -> G1c(0) \cup Extra [] FAMILY = "G8" -> G8(0) \cup G8b(0)
+Cases == CASE FAMILY = "G1a_1" -> G1a_1(0) [] FAMILY = "G1c" -> G1c(0) \cup Extra [] FAMILY = "G8" -> G8(0) \cup G8b(0) [] FAMILY = "G13" -> G13(3)
 
 VARIABLES c, id
-Init == c \in Cases /\ id \in Ids(Register(ProgOf(c), c.roots).reg)
+Init == c \in Cases /\ id \in Ids(RegOf(c))
 Next == UNCHANGED <<c, id>>
 Spec == Init /\ [][Next]_<<c, id>>
-Reg == Register(ProgOf(c), c.roots).reg
+Reg == RegOf(c)
 DesignC12 == (Acyclic(Reg, id) /\ ~HasEmptyEnum(Reg, id)) => (~CanError(Reg, id, FALSE) /\ ~CanError(Reg, id, TRUE))
 \* cycles are always cut: a type on a cycle can fail (never unbounded recursion - CanErr terminates by the marker)
 CyclesAreCut == OnCycle(Reg, id) => CanError(Reg, id, FALSE)
